@@ -14,7 +14,8 @@ type RWMutex struct {
 	w     bool
 	r     int
 	owner int
-	vc    []int
+	vc    []int // clock released by the last writer (Unlock)
+	rvc   []int // join of the clocks released by readers since then (RUnlock): ordered before the NEXT WRITER only
 }
 
 // Mutex replaces sync.Mutex.
@@ -30,6 +31,7 @@ func (m *RWMutex) Lock() {
 	s.point(&pendingOp{kind: opLock, label: "Lock", mu: m})
 	m.w, m.owner = true, s.running.id
 	s.acquire(m.vc)
+	s.acquire(m.rvc)
 }
 
 func (m *RWMutex) Unlock() {
@@ -40,6 +42,7 @@ func (m *RWMutex) Unlock() {
 	m.w, m.owner = false, -1
 	if s := active.Load(); s != nil && s.running != nil {
 		m.vc = s.release()
+		m.rvc = nil
 	}
 }
 
@@ -62,7 +65,8 @@ func (m *RWMutex) RUnlock() {
 	}
 	m.r--
 	if s := active.Load(); s != nil && s.running != nil {
-		m.vc = joinVC(m.vc, s.release())
+		// readers are NOT ordered with each other: a later RLock acquires the last writer's clock only
+		m.rvc = joinVC(m.rvc, s.release())
 	}
 }
 
